@@ -242,6 +242,15 @@ ClassCands == { OneOf(<<ObjT(<<L1>>), SubT(<<L1>>)>>), OneOf(<<SubT(<<L1>>), Obj
                 ManyOf(2, <<ObjT(<<O12>>), SubT(<<O12>>), L3>>, TRUE, FALSE),
                 ManyOf(2, <<SubT(<<L1, L2>>), ObjT(<<L1, L2>>)>>, FALSE, FALSE),
                 DictT(<<OneOf(<<ObjT(<<L1>>), SubT(<<L1>>)>>), SubT(<<O12>>)>>) }
+\* candidates one of which is a strict prefix / sub-structure of a later (or earlier) one: still distinguishable,
+\* because a container matches only a container of the same length
+PrefixCands == { OneOf(<<ListT(<<L1, L2>>), ListT(<<L1, L2, L3>>), ListT(<<Leaf(4)>>)>>),
+                 OneOf(<<ListT(<<L1, L2, L3>>), ListT(<<L1, L2>>)>>),
+                 ManyOf(2, <<ListT(<<L1>>), ListT(<<L1, L2>>), ListT(<<L3>>)>>, TRUE, FALSE),
+                 DictT(<<OneOf(<<ListT(<<O12>>), ListT(<<O12, L3>>)>>), L1>>),
+                 OneOf(<<DictT(<<L1>>), DictT(<<L1, L2>>)>>),
+                 OneOf(<<ListT(<<>>), ListT(<<L1>>)>>),
+                 ObjT(<<OneOf(<<ListT(<<L1>>), ListT(<<L1, ListT(<<L2>>)>>)>>)>>) }
 \* derived values (references to a sibling / to an item of the parent) and placeholder-free templates
 RefFills == {O12, L1, ManyOf(2, <<L1, L2, L3>>, TRUE, FALSE), OneOf(<<DictT(<<L1>>), L2>>), ListT(<<L1, L2>>), FloatT(0, 10)}
 WithRefs == { DictT(<<p, Ref(<<1>>)>>) : p \in RefFills }
@@ -285,14 +294,14 @@ OkPair(p) == /\ p[2] \in WheresFor(p[1])
              /\ LET z == Size(TemplateSpec(p[1], p[2])) IN
                 IF z = INF THEN Cardinality(Valid(TemplateSpec(p[1], p[2]))) <= 4 * MaxSize ELSE z <= MaxSize
 H_one == { <<O12, "all">> }
-H_tiny == { p \in WithWheres(Prim1 \cup Boxes1({O12, FloatT(0, 10)}) \cup TypedGood \cup ClassCands \cup WithRefs \cup Constants)
+H_tiny == { p \in WithWheres(Prim1 \cup Boxes1({O12, FloatT(0, 10)}) \cup TypedGood \cup ClassCands \cup WithRefs \cup Constants \cup PrefixCands)
             : OkPair(p) }
 H_quick == { p \in WithWheres(Prim1 \cup Prim2 \cup {O11} \cup Boxes1(Prim1 \cup Prim2 \cup {O11}) \cup Boxes2(PrimSmall, PrimSmall)
-                            \cup TypedGood \cup ClassCands \cup WithRefs \cup Constants)
+                            \cup TypedGood \cup ClassCands \cup WithRefs \cup Constants \cup PrefixCands)
              : OkPair(p) }
 H_thorough == { p \in WithWheres(Prim1 \cup Prim2 \cup {O11} \cup Boxes1(Prim1 \cup Prim2 \cup {O11})
                                  \cup Boxes2(Prim1 \cup Prim2, PrimSmall) \cup Boxes3(PrimSmall \ {O11}) \cup TypedGood
-                                 \cup ClassCands \cup WithRefs \cup Constants)
+                                 \cup ClassCands \cup WithRefs \cup Constants \cup PrefixCands)
                 : OkPair(p) }
 
 \* ---------------------------------------------------------------- behaviours: the odometer over the template's space
